@@ -168,7 +168,7 @@ func getParentMethodTGuarded(
 
 		if parentNode.IsExtend {
 			extendFrame := parentNode.Frame
-			if extendFrame == "" && slices.Contains(BuiltinClasses, parentNode.Class) {
+			if extendFrame == "" && !DefinedClassTable[DefinedClass{frame: "", class: parentNode.Class}] && slices.Contains(BuiltinClasses, parentNode.Class) {
 				extendFrame = "Builtin"
 			}
 
@@ -191,7 +191,7 @@ func getParentMethodTGuarded(
 
 		if parentNode.IsInclude {
 			includeFrame := parentNode.Frame
-			if includeFrame == "" && slices.Contains(BuiltinClasses, parentNode.Class) {
+			if includeFrame == "" && !DefinedClassTable[DefinedClass{frame: "", class: parentNode.Class}] && slices.Contains(BuiltinClasses, parentNode.Class) {
 				includeFrame = "Builtin"
 			}
 
